@@ -1,9 +1,50 @@
-(* Property C10 - each committed store state is a consistent chain; crashes lose whole blocks only. *)
-From Virel Require Import Lib.Config Lib.U64 Lib.AMap Model.Ledger Model.Node Proofs.NodeBasics.
+(* Property C10 - each committed store state is a consistent chain; crashes lose whole blocks only.
+   In the model one delivery is one database commit (the harness checks on the implementation that a delivery makes
+   at most one commit and that a refused one leaves the store byte-identical), so "every committed state" = every
+   state reachable by deliveries.  Statements only; proofs in Proofs/Restart.v, Proofs/ForkChoice.v. *)
+From Virel Require Import Lib.Config Lib.U64 Lib.AMap Model.Ledger Model.Node Proofs.NodeBasics Proofs.ForkChoice Proofs.Restart.
 Open Scope N_scope.
 
-(* a rejected block, reorganisation or transaction changes nothing: the model's step returns the old node *)
+(* every reachable state: the tip's block exists, no stored block is heavier, and the start-up reorganisation check
+   (cmd/virel-node/node.go) leaves the state exactly as it is *)
+Theorem C10_restart_is_identity : forall cfg genesis_addr team_key g n0 ops,
+  node0 cfg genesis_addr g = Ok n0 -> b_cd g = b_diff g ->
+  exists amb, check_reorgs cfg genesis_addr (run cfg genesis_addr team_key n0 ops)
+              = Ok (run cfg genesis_addr team_key n0 ops, amb).
+Proof. exact reachable_startup_noop. Qed.
+Print Assumptions C10_restart_is_identity.
+
+Theorem C10_tip_exists_every_commit : forall cfg genesis_addr team_key g n0 ops,
+  node0 cfg genesis_addr g = Ok n0 -> b_cd g = b_diff g ->
+  let n := run cfg genesis_addr team_key n0 ops in
+  (exists t, get_block n (top n) = Some t /\ b_cd t = top_cd n) /\
+  (forall h b, get_block n h = Some b -> b_cd b <= top_cd n).
+Proof. exact tip_always_maximal. Qed.
+Print Assumptions C10_tip_exists_every_commit.
+
+(* the lost deliveries can be offered again with overlap: an accepted block is stored, and offering a stored block again
+   changes nothing *)
+Theorem C10_accepted_is_stored : forall cfg genesis_addr team_key n b now n' amb,
+  deliver cfg genesis_addr team_key n b now = (n', Accepted, amb) -> get_block n' (b_hash b) = Some b.
+Proof. exact accepted_is_stored. Qed.
+Print Assumptions C10_accepted_is_stored.
+
+Theorem C10_redelivery_idempotent : forall cfg genesis_addr team_key n b now now' n' amb,
+  deliver cfg genesis_addr team_key n b now = (n', Accepted, amb) ->
+  fst (fst (deliver cfg genesis_addr team_key n' b now')) = n'.
+Proof. exact delivery_idempotent. Qed.
+Print Assumptions C10_redelivery_idempotent.
+
+(* a rejected block, reorganisation or transaction changes nothing in the store *)
 Theorem C10_rejected_unchanged : forall cfg genesis_addr team_key n b now n' c amb,
   deliver cfg genesis_addr team_key n b now = (n', Rejected c, amb) -> n' = n.
 Proof. exact deliver_rejected_unchanged. Qed.
 Print Assumptions C10_rejected_unchanged.
+
+(* NOT PROVED (stated): the ledger of every reachable state equals the replay of its main chain, and a node restarted
+   from any commit prefix reaches the same final chain.  Both are checked on the implementation for the crash points of
+   every generated history (Check/C10.v), together with LMDB's own atomicity, which no model here can exhibit. *)
+Definition C10_crash_recovers_full : Prop := forall cfg genesis_addr team_key n0 (ops : list (block * N)) k j,
+  (j <= k)%nat ->
+  top (run cfg genesis_addr team_key (run cfg genesis_addr team_key n0 (firstn k ops)) (skipn j ops))
+  = top (run cfg genesis_addr team_key n0 ops).
